@@ -10,6 +10,7 @@ import itertools
 import json
 import re
 import os
+import posixpath
 import subprocess
 import sys
 
@@ -127,6 +128,11 @@ def foreign_corpora(limit):
             continue
         for i, it in enumerate(items):
             it = dict(it)
+            files = it.get("files") or {}
+            if len({posixpath.normpath("/" + k) for k in files}) != len(files):
+                # two URIs of the program name one file once normalised (decoys registered under un-normalised
+                # put_string keys): such a program exists only in a string lookup, it has no file form
+                continue
             it["id"] = "%s:%d" % (pid.upper(), i)
             it.setdefault("template_kwargs", {})
             it["env"] = "mc.%s_env" % pid
